@@ -95,7 +95,7 @@ pub fn plans(thorough: bool, for_c01: bool) -> Vec<Plan> {
         Plan { name: "n2-complete", n: 2, defs: alld.clone(), pars: allp.clone() },
         Plan { name: "n3-params-focused", n: 3, defs: vec![Prim, Comp1, Seq], pars: allp.clone() },
     ];
-    if !for_c01 || thorough {
+    {
         v.push(Plan { name: "n3-all-defs-no-params", n: 3, defs: alld.clone(), pars: vec![NoParams] });
     }
     if thorough && !for_c01 {
